@@ -183,6 +183,10 @@ Definition dec_info_int_gen (array : bool) (bs : list N) : rres rvalue :=
 Definition dec_info_int := dec_info_int_gen false.
 Definition dec_info_ints := dec_info_int_gen true.
 
+(* ------------------------------------------------------------------ INFO missing value *)
+(* write_value(None): the typed MISSING value, whatever the field's type *)
+Definition enc_info_missing : res (list N) := Ok [0%N].
+
 (* ------------------------------------------------------------------ INFO Float *)
 Definition enc_info_float (b : Z) : res (list N) := Ok (desc_byte 5 1 :: enc_f32 b).
 
@@ -193,7 +197,7 @@ Definition info_fentry (v : option Z) : res Z :=
     match classify_f b with
     | FValue c => Ok c
     | FMissing => Ok f_missing
-    | _ => Panic                                     (* todo!("unhandled f32 array value") *)
+    | _ => ErrInput                                  (* "invalid info field float array value" *)
     end
   end.
 
@@ -270,7 +274,12 @@ Definition enc_fmt_int (vals : list (option Z)) : res (list N) :=
 (* ------------------------------------------------------------------ FORMAT Integer vectors *)
 Definition sample := option (list (option Z)).
 
-Definition sample_len (s : sample) : nat := match s with Some vs => length vs | None => 0%nat end.
+(* the number of entries a sample occupies: a missing sample is written as one missing entry *)
+Definition sample_len (s : sample) : nat := match s with Some vs => length vs | None => 1%nat end.
+
+(* write_float_array_values computes its common length from the present vectors only *)
+Definition fsample_len (s : sample) : nat := match s with Some vs => length vs | None => 0%nat end.
+Definition fmax_len (vals : list sample) : nat := fold_left (fun m s => Nat.max m (fsample_len s)) vals 0%nat.
 
 Definition max_len (vals : list sample) : nat := fold_left (fun m s => Nat.max m (sample_len s)) vals 0%nat.
 
@@ -366,15 +375,21 @@ Definition dec_fmt_int := dec_fmt_int_gen true.
 Definition dec_fmt_ints := dec_fmt_int_gen false.
 
 (* ------------------------------------------------------------------ FORMAT Float *)
-(* write_float_values: raw bits, Missing for None *)
-Definition enc_fmt_float (vals : list (option Z)) : res (list N) :=
-  Ok (desc_byte 5 1 :: flat_map (fun v => enc_f32 (match v with Some b => b | None => f_missing end)) vals).
+(* validate_float: end-of-vector and reserved patterns are rejected *)
+Definition validate_float (b : Z) : res Z :=
+  match classify_f b with FEov | FReserved _ => ErrInput | _ => Ok b end.
 
-Definition fsample_raws (m : nat) (s : sample) : list Z :=
+Definition fentry (v : option Z) : res Z :=
+  match v with Some b => validate_float b | None => Ok f_missing end.
+
+(* write_float_values *)
+Definition enc_fmt_float (vals : list (option Z)) : res (list N) :=
+  bind (map_res fentry vals) (fun raws => Ok (desc_byte 5 1 :: flat_map enc_f32 raws)).
+
+Definition fsample_raws (m : nat) (s : sample) : res (list Z) :=
   match s with
-  | Some vs =>
-    map (fun v => match v with Some b => b | None => f_missing end) vs ++ repeat f_eov (m - length vs)
-  | None => f_missing :: repeat f_eov (m - 1)
+  | Some vs => bind (map_res fentry vs) (fun raws => Ok (raws ++ repeat f_eov (m - length vs)))
+  | None => Ok (f_missing :: repeat f_eov (m - 1))
   end.
 
 Definition has_vector (vals : list sample) : bool := existsb (fun s => match s with Some _ => true | None => false end) vals.
@@ -382,9 +397,10 @@ Definition has_vector (vals : list sample) : bool := existsb (fun s => match s w
 (* write_float_array_values *)
 Definition enc_fmt_floats (vals : list sample) : res (list N) :=
   if has_vector vals then
-    let m := max_len vals in
+    let m := fmax_len vals in
     bind (enc_type 5 (Z.of_nat m)) (fun d =>
-    Ok (d ++ flat_map (fun s => flat_map enc_f32 (fsample_raws m s)) vals))
+    bind (map_res (fsample_raws m) vals) (fun rl =>
+    Ok (d ++ flat_map (flat_map enc_f32) rl)))
   else ErrInput.
 
 Fixpoint fsample_entries (xs : list (list N)) : rres (list (option Z)) :=
